@@ -88,13 +88,8 @@ Proof.
   - apply andb_true_iff in Hc as [Hc1 Hc2].
     destruct (find_sig (pos + (List.length ts - List.length r1)) sigs) as [sa|]; [|discriminate].
     assert (Hx : attrs' = attrs /\ v' = v).
-    { destruct (skipn (sa_len sa) r1) as [|t r2].
-      - destruct (rbind_ok _ _ _ H2) as [[b r3] [_ H3]]. cbv beta in H3. injection H3 as <- <- _ _ _ _. auto.
-      - destruct t as [x|c|x|d g];
-          try (destruct (rbind_ok _ _ _ H2) as [[b r3] [_ H3]]; cbv beta in H3; injection H3 as <- <- _ _ _ _; auto).
-        revert H2. destruct_ascii c; intros H2;
-          try (destruct (rbind_ok _ _ _ H2) as [[b r3] [_ H3]]; cbv beta in H3; injection H3 as <- <- _ _ _ _; auto).
-        discriminate H2. }
+    { destruct (match skipn (sa_len sa) r1 with t :: _ => is_semi t | [] => false end); [discriminate H2|].
+      destruct (rbind_ok _ _ _ H2) as [[b r3] [_ H3]]. cbv beta in H3. injection H3 as <- <- _ _ _ _. auto. }
     destruct Hx as [-> ->]. exists r0, r1. repeat split; auto. intros ->. discriminate Hc1.
   - destruct (rbind_ok _ _ _ H2) as [[tokens r2] [_ H3]]. cbv beta in H3. discriminate H3.
 Qed.
